@@ -13,6 +13,7 @@ import io
 import json
 import logging
 import os
+import re
 import shutil
 import struct
 import sys
@@ -702,9 +703,11 @@ class Oracle:
                 elif undone is None or cur is None:
                     c = 'refuse'
                 elif undone.startswith('bl') and cur.startswith('bl'):
-                    # a later, different blob content: the records are byte-equal (a Blob has no pickled
-                    # state), so the storage copies the pointer and the blob file of the revision before
-                    # T; reported to the coordinator, accepted either way here and counted
+                    # a later, different blob content.  The property demands UndoError; the records are
+                    # byte-equal (a Blob has no pickled state), so the storage copies the pointer and the
+                    # blob file of the revision before T: known finding C06:blob-later-change-overwritten,
+                    # judged in run_blob_case (a success is reported with that signature, and the oracle
+                    # then follows what the storage did so that the rest of the case is still judged)
                     c = 'grey-blob'
                 elif before is None:
                     c = 'refuse'
@@ -1077,6 +1080,7 @@ def run_blob_case(case, tmp):
     labels = {}
     blob_oids = set()
     S = {}
+    fatal = []          # problems after which the rest of the case cannot be judged
 
     def cnt(k):
         stats['hist'][k] = stats['hist'].get(k, 0) + 1
@@ -1137,6 +1141,7 @@ def run_blob_case(case, tmp):
                 unreadable = any(v[1].startswith('ERR:') for v in got.values())
                 problems.append(('C06:blob-unreadable-after-undo' if unreadable else 'C06:blob-state-after-undo',
                                  '%s: %s reads the blobs as %s, the history says %s' % (where, who, got, exp)))
+                fatal.append(1)
                 return
 
     ctx = clock.scripted()
@@ -1146,7 +1151,7 @@ def run_blob_case(case, tmp):
         log = parse_file(path, toks)
         orc.commit(log[-1][0], [(r[0], r[4]) for r in log[-1][2]])
         for op in case['ops']:
-            if problems:
+            if fatal:
                 break
             ev = dict(op=op, kind=op[0], res='ok')
             events.append(ev)
@@ -1200,6 +1205,8 @@ def run_blob_case(case, tmp):
                     tm.abort()
                 ev['res'] = res
                 cnt('blob-undo:real-%s/predicted-%s' % (res, outcome))
+                later = sorted(o for o, c in classes.items() if c == 'grey-blob')
+                nprob = len(problems)
                 if res == 'Other:POSKeyError' and outcome != 'fail' and case.get('variant') != 'native':
                     problems.append(('C06:blobstorage-undo-poskeyerror', 'BlobStorage: undo of %s raised '
                                      'POSKeyError although every object is restorable (%s)' % (ev['ids'], classes)))
@@ -1210,21 +1217,31 @@ def run_blob_case(case, tmp):
                                      % (ev['ids'], classes)))
                 elif outcome == 'ok' and res != 'ok':
                     problems.append(('C06:undo-refused', 'undo of %s failed although %s' % (ev['ids'], classes)))
+                elif later and res == 'ok':
+                    # strict: a later, different blob content is neither equal in effect nor mergeable
+                    problems.append(('C06:blob-later-change-overwritten',
+                                     'undo of %s succeeded although blob(s) %s were given a different content by '
+                                     'a later transaction; that content is discarded' % (ev['ids'], later)))
+                    nprob += 1                          # not fatal: the oracle follows the storage from here
+                if len(problems) > nprob:
+                    fatal.append(1)
                 if res == 'ok':
                     labels[op[1]] = S['st'].lastTransaction()
                     orc.txns.append(dict(tid=labels[op[1]].hex(), packed=False, writes=dict(W), undo=True))
             elif op[0] == 'reopen':
                 close_()
                 open_()
-            if not problems:
+            if not fatal:
                 check('after %r' % (op,), ev)
-        if not problems:
+        if not fatal:
             close_()
             open_()
             check('after close and reopen', dict())
         close_()
     except InfraError:
         raise
+    except StepBlocked:
+        problems.append(blocked_problem(events))
     except Exception as e:
         problems.append(('C06:exception-in-history', 'blob history broke after %d ops: %s: %s'
                          % (len(events), type(e).__name__, e)))
@@ -1287,16 +1304,57 @@ def canonical(case):
     return [case['mode'], case.get('variant'), case['ops']]
 
 
-def judge_real_only(case, tmp):
-    """run one case on the real code and let the oracle judge it -> plain (picklable) data"""
+class StepBlocked(BaseException):
+    """a step of a case did not return in time (e.g. a commit lock an earlier step leaked)"""
+
+
+CASE_TIMEOUT = [20.0]      # seconds per case; shortened in a process once a case has blocked there
+
+
+def _on_alarm(signum, frame):
+    raise StepBlocked()
+
+
+def blocked_problem(events):
+    op = events[-1]['op'] if events else None
+    return ('C06:step-blocked', 'step %d %r did not return in time: an earlier step did not release a lock '
+            'or resource (the history up to it is the failing input)' % (len(events), op))
+
+
+def judge_real_only(case, tmp, timeout=None):
+    """run one case on the real code and let the oracle judge it -> plain (picklable) data.
+    A per-case alarm (repeating, so that clean-up code that blocks again is interrupted too) turns a
+    blocked step into the observation C06:step-blocked instead of a hang."""
+    import signal
+    t = timeout or CASE_TIMEOUT[0]
+    old = signal.signal(signal.SIGALRM, _on_alarm)
+    signal.setitimer(signal.ITIMER_REAL, t, 1.0)
+    try:
+        try:
+            return _judge(case, tmp)
+        except StepBlocked:          # raised again in clean-up code outside the runners' own handlers
+            return dict(lines=[], events=[], problems=[blocked_problem([])],
+                        stats=dict(nontrivial=False, hist={}))
+    finally:
+        signal.setitimer(signal.ITIMER_REAL, 0)
+        signal.signal(signal.SIGALRM, old)
+
+
+def _judge(case, tmp):
     if case['mode'] == 'blob':
-        return run_blob_case(case, tmp)
+        res = run_blob_case(case, tmp)
+        if any(p[0] == 'C06:step-blocked' for p in res['problems']):
+            CASE_TIMEOUT[0] = 3.0
+        return res
     r = Real(case, tmp)
-    crashed = None
+    crashed = blocked = None
     try:
         r.run()
     except InfraError:
         raise
+    except StepBlocked:
+        blocked = True
+        CASE_TIMEOUT[0] = 3.0
     except Exception as e:                      # the storage broke in the middle of a history
         crashed = '%s: %s' % (type(e).__name__, e)
         try:
@@ -1304,11 +1362,21 @@ def judge_real_only(case, tmp):
         except Exception:
             pass
     events = r.events
-    problems, stats = oracle_check(case, events)
+    try:
+        problems, stats = oracle_check(case, events)
+    except StepBlocked:
+        raise
+    except Exception as e:
+        if not (blocked or crashed):
+            raise
+        problems, stats = [], dict(nontrivial=False, hist={})      # half-recorded last event
+    if blocked:
+        problems.append(blocked_problem(events))
     if crashed is not None:
         problems.append(('C06:exception-in-history', 'the history could not be executed after %d ops: %s'
                          % (len(events), crashed)))
-    add_verdict_lines(r, events)
+    if not blocked:
+        add_verdict_lines(r, events)
     return dict(lines=r.lines, events=events, problems=problems, stats=stats)
 
 
@@ -1364,6 +1432,7 @@ def main(argv=None):
         lines += [l[0] for l in res['lines']]
     out = run_driver('Undo', lines, timeout=1500)
     pos = 0
+    seen_sigs = {}
     for case, res in zip(cases, results):
         rl, events, problems, stats = res['lines'], res['events'], res['problems'], res['stats']
         mo = out[pos + 1: pos + 1 + len(rl)]
@@ -1377,25 +1446,39 @@ def main(argv=None):
         ck.case(canonical(case), nontriv,
                 sample=dict(case=case, undo_outcomes=[(e.get('ids'), e['res']) for e in events
                                                       if e['kind'] == 'u']) if nontriv else None)
-        if problems and len(ck.violations) + len(ck.known_hit) >= 4:
-            ck.count('violating-cases-not-shrunk')          # enough replayable witnesses; keep the run short
-        elif problems:
-            sig = problems[0][0]
+        sigs = []
+        for p in problems:
+            if p[0] not in sigs:
+                sigs.append(p[0])
+        for sig in sigs:
+            known = any(k.get('status', 'open') == 'open' and re.fullmatch(k['signature'], sig)
+                        for k in ck.known)
+            seen_sigs[sig] = seen_sigs.get(sig, 0) + 1
+            ck.count('problem:' + sig)
+            # one shrunk witness per known finding; up to 4 per new signature (and every NEW signature
+            # gets at least one, however many cases another signature has already claimed)
+            if seen_sigs[sig] > (1 if known else 4) or (not known and len(seen_sigs) > 12):
+                ck.count('violating-cases-not-shrunk')
+                continue
+            blocked = sig == 'C06:step-blocked'
 
-            def fails(sub_ops, sig=sig, case=case):
+            def fails(sub_ops, sig=sig, case=case, blocked=blocked):
                 try:
-                    pr = judge_real_only(dict(case, ops=sub_ops), ck.tmp)['problems']
+                    pr = judge_real_only(dict(case, ops=sub_ops), ck.tmp,
+                                         timeout=2.5 if blocked else None)['problems']
                 except Exception:
                     return False
                 return any(p[0] == sig for p in pr)
-            small_ops = ddmin(case['ops'], fails, max_tests=150)
+            small_ops = ddmin(case['ops'], fails, max_tests=40 if blocked else 150)
             small = dict(case, ops=small_ops)
             try:
-                pr2 = judge_real_only(small, ck.tmp)['problems']
-                pr2 = [p for p in pr2 if p[0] == sig] or problems
+                pr2 = judge_real_only(small, ck.tmp, timeout=2.5 if blocked else None)['problems']
+                pr2 = [p for p in pr2 if p[0] == sig] or [p for p in problems if p[0] == sig]
             except Exception:
-                small, pr2 = case, problems
+                small, pr2 = case, [p for p in problems if p[0] == sig]
             ck.violation(sig, pr2[0][1], dict(small, problems=[p[1] for p in pr2[:5]]))
+        if problems:
+            pass
         else:
             for (op, exp, tag, what), got in zip(rl, mo):
                 if exp != got:
